@@ -358,6 +358,16 @@ func andBit(x, c Int) (Int, bool) {
 	if x.Hi < low {
 		return K(0), true
 	}
+	// contiguous high mask (e.g. 0xf0): exact when those bits are constant over x
+	if sh := uint(bits.TrailingZeros64(uint64(c.Lo))); (uint64(c.Lo)>>sh+1)&(uint64(c.Lo)>>sh) == 0 && x.Lo>>sh == x.Hi>>sh && x.Hi <= (c.Lo|(int64(1)<<sh-1)) {
+		return K(x.Lo & c.Lo), true
+	}
+	if (c.Lo+1)&c.Lo == 0 { // low mask 2^k-1: exact when the high part is constant over x
+		k := uint(bits.Len64(uint64(c.Lo)))
+		if x.Lo>>k == x.Hi>>k {
+			return Int{Lo: x.Lo & c.Lo, Hi: x.Hi & c.Lo}, true
+		}
+	}
 	if c.Lo&(c.Lo-1) == 0 { // single bit
 		k := uint(bits.TrailingZeros64(uint64(c.Lo)))
 		if x.Lo>>k == x.Hi>>k {
